@@ -1,0 +1,18 @@
+//go:build verif
+
+package cmd
+
+// Contracts for the govc verification-condition generator (see /verif/DESIGN.md, section 4.19).
+// This file is comment-only: it contains no declarations and changes no compiled code.
+
+// srcof(s) is the name of the file whose contents the string s was read from or made of (ghost). The formatted
+// text is a function of the text handed in and of the formatter's options only, so it belongs to the same file;
+// this clause is assumed, not proved: the body goes through the tokenizer, the parser and the AST formatter.
+//@ func (*Formatter).formatSQL
+//@   trusted
+//@   ensures implies(err == nil, srcof(result0) == srcof(sql))
+
+// What formatFile reports for a file was made from that very file.
+//@ func (*Formatter).formatFile
+//@   ensures result0.Path == filename
+//@   ensures implies(result0.Error == nil && len(result0.Formatted) > 0, srcof(result0.Formatted) == filename)
